@@ -3,6 +3,20 @@ import json, os
 ROOT = os.path.dirname(os.path.dirname(os.path.abspath(__file__)))
 
 CHECKS = {
+    "C04": dict(
+        category="exploration",
+        text="Differential runtime monitor: for exhaustively enumerated small CLVM trees/expressions, targeted path-arithmetic families and random large trees, whenever clvmr evaluates R in E to v the real optimize_sexp and run_optimizer must accept R and clvmr must evaluate their output in E to v. Exhaustive only inside the stated node bounds; random beyond.",
+        design_ref="DESIGN.md §4 C04",
+        note="trusts clvmr 0.16.2 as the meaning of CLVM; environments are synthesised so that the paths used resolve",
+        technique="runtime differential monitoring against clvmr (bounded-exhaustive + random workloads)",
+    ),
+    "C06": dict(
+        category="exploration",
+        text="Differential runtime monitor: the real stepping evaluator (compiler::clvm::run) and clvmr run the same program/environment, for exhaustively enumerated small trees and grammar expressions, random hostile trees over the full operator set, several atom spellings and both integer modes; values must be byte-identical and failures must coincide.",
+        design_ref="DESIGN.md §4 C06",
+        note="trusts clvmr 0.16.2; step limit / cost cap hits are reported as inconclusive",
+        technique="runtime differential monitoring against clvmr (bounded-exhaustive + random workloads)",
+    ),
     "C20": dict(
         category="exploration",
         text="Exhaustive run-time comparison of the finite operator tables (classic v0/v1/v2, modern prims, harness copy of the CLVM spec numbering), every opcode 0..255 and the 4-byte secp opcodes through disassemble/assemble, and one single-operator program per name through every compiler route, run by clvmr and by the stepping evaluator. The space is finite and enumerated completely on each run.",
